@@ -307,6 +307,8 @@ class Engine:
         self.max_depth = max_depth
         # in the debug fact base optional overflow Asserts panic; in release semantics they wrap
         self.lazy_enums = False
+        self.max_block_visits = None
+        self.int_floats = False
         self.group_switch = False
         self.sym_select = False
         self.overflow_panics = facts.config.get("overflow_checks", True) if overflow_panics is None else overflow_panics
@@ -1141,6 +1143,19 @@ class Engine:
                     return [(st, Int(Lin.const(v), tid))]
                 return [(st, self.fresh(tid, ("bitop", base, l.lin.key(), r.lin.key())))]
         if isinstance(l, Flt) and isinstance(r, Flt):
+            if self.int_floats and base in ("Add", "Sub", "Eq", "Ne", "Lt", "Le", "Gt", "Ge"):
+                # integer-valued doubles below 2^53: f64 +, - and comparisons are exact integer arithmetic
+                a, bq = self.flt_int(st, l), self.flt_int(st, r)
+                if a is not None and bq is not None and not (l.t[0] == "c" and r.t[0] == "c"):
+                    if base in ("Add", "Sub"):
+                        res = a + bq if base == "Add" else a - bq
+                        lo, hi = interval(res, st.bnd)
+                        if -(1 << 53) <= lo and hi <= (1 << 53):
+                            return [(st, Flt(("i2f", res.key(), res)))]
+                    else:
+                        d = a - bq
+                        rel = {"Eq": "eq", "Ne": "ne", "Lt": "lt", "Le": "le", "Gt": "gt", "Ge": "ge"}[base]
+                        return [(st, Bool(c_lin(rel, d)))]
             if base in ("Add", "Sub", "Mul", "Div", "Rem"):
                 return [(st, Flt(fold_f(base, l.t, r.t)))]
             if base in ("Eq", "Ne", "Lt", "Le", "Gt", "Ge"):
@@ -1255,6 +1270,18 @@ class Engine:
                 out.append((s2, Int(rm, tid)))
         return out
 
+    def flt_int(self, st, x):
+        """Lin of an integer-valued double (an int -> float cast below 2^53, or an integral constant), else None"""
+        t = x.t
+        if t[0] == "i2f":
+            lo, hi = interval(t[2], st.bnd)
+            if -(1 << 53) <= lo and hi <= (1 << 53):
+                return t[2]
+            return None
+        if t[0] == "c" and isinstance(t[1], float) and t[1] == t[1] and abs(t[1]) < float(1 << 53) and t[1] == int(t[1]):
+            return Lin.const(int(t[1]))
+        return None
+
     def unop(self, st, fr, u, x, dest_tid):
         if u == "Not":
             if isinstance(x, Bool):
@@ -1272,6 +1299,10 @@ class Engine:
                     out.append((s2, Int(res, x.tid)))
                 return out
             if isinstance(x, Flt):
+                if self.int_floats and x.t[0] != "c":
+                    a = self.flt_int(st, x)
+                    if a is not None:
+                        return [(st, Flt(("i2f", (-a).key(), -a)))]
                 return [(st, Flt(fold_f1("neg", x.t)))]
         if u == "PtrMetadata":
             if isinstance(x, Ref):
@@ -1330,6 +1361,9 @@ class Engine:
                     l0, h0 = self.fm_bounds(st, x.t[2])
                     if -(1 << 53) <= l0 and h0 <= (1 << 53) and l0 >= lo and h0 <= hi:
                         return [(st, Int(x.t[2], tid))]
+                    if self.int_floats:
+                        self.event(st, "lossy_cast", "float -> %s cast of an integer-valued double that may lie outside the target range [%s, %s]" % (
+                            self.F.ty_s(tid), l0, h0))
                 v = self.fresh(tid, ("f2i", x.t))
                 return [(st, v)]
         if ck == "FloatToFloat":
@@ -1438,6 +1472,14 @@ class Engine:
 
     def goto(self, st, bb):
         fr = st.frames[-1]
+        if self.max_block_visits is not None and bb <= fr.bb:
+            # backward jump: bound the number of times one path may re-enter a block of this frame (exploration cut-off used by
+            # analyses that only need what happens before a non-iterator loop; the path ends as "cut", never as a verdict)
+            k = ("visits", fr.fid, bb)
+            n = st.facts_extra.get(k, 0) + 1
+            st.facts_extra[k] = n
+            if n > self.max_block_visits:
+                st.end = "cut"
         fr.bb = bb
         fr.si = 0
         return st
